@@ -445,7 +445,12 @@ def rename_nodes(prog, mapping):
     import copy as _c
     p = _c.deepcopy(prog)
     for n in p["nodes"]:
-        n["name"] = mapping.get(n["name"], n["name"])
+        old = n["name"]
+        n["name"] = mapping.get(old, old)
+        if n.get("fid") == old:
+            n["fid"] = n["name"]
+        if n.get("tname") == old:
+            n["tname"] = n["name"]
         n["targets"] = [mapping.get(t, t) for t in n["targets"]]
         n["script"] = [[mapping.get(t, t) for t in s] for s in n["script"]]
         n["dec_args"] = [[v, [mapping.get(t, t) for t in s]] for v, s in n["dec_args"]]
